@@ -570,7 +570,14 @@ func (e *Engine) havocRegion(st *State, name string) {
 	if m == nil {
 		return
 	}
+	old := st.Heap[name]
 	st.Heap[name] = e.freshFun("H_"+name, m.Args, m.Res)
+	if name == "ctx.cancelled" && old != "" {
+		// cancellation is monotone: whatever else is forgotten, a cancelled context stays cancelled
+		c := T{"c!q", SAny}
+		nw := st.Heap[name]
+		st.assume(Forall([]T{c}, []T{App(SBool, nw, c)}, Implies(App(SBool, old, c), App(SBool, nw, c))))
+	}
 }
 
 func (e *Engine) havocAllHeap(st *State, why string) {
